@@ -307,7 +307,7 @@ def drv_perm(c, ctx, col):
     from formulaic.materializers.base import FormulaMaterializer
     src = c.pick(PERM_FORMULAS)
     dname = c.pick(["D1", "D2"])
-    output = c.pick(["pandas", "sparse"])
+    output = c.pick(ctx.get("outputs", ["pandas", "sparse"]))
     w = make_world()
     data = w[dname]
     orig = FormulaMaterializer._prepare_factor_evaluation_model_spec
@@ -532,15 +532,15 @@ def subchecks(tier, seed):
     return [
         Sub("histories", drv_hist, {"D": 2 if quick else 3, "formulas": ["F1", "F2", "F3"], "entries": ["mm", "umm"] if quick else ["mm", "fmm", "umm"]},
             shard_depth=2, bounds={"max_events": 2 if quick else 3, "formulas": FORMULA_SRC, "frames": 2}),
-        Sub("histories-depth3-slice", drv_hist, {"D": 3, "formulas": ["F1", "F3"] if quick else ["F1", "F2", "F3", "F4"], "entries": ["umm"] if quick else ["mm", "umm"]},
-            shard_depth=2, bounds={"max_events": 3, "formulas": ["F1", "F3"] if quick else list(FORMULA_SRC), "entries": "shared unfitted specs (+model_matrix in thorough)"}),
+        Sub("histories-depth3-slice", drv_hist, {"D": 3, "formulas": ["F1"] if quick else ["F1", "F2", "F3", "F4"], "entries": ["umm"] if quick else ["mm", "umm"]},
+            shard_depth=2, bounds={"max_events": 3, "formulas": ["F1"] if quick else list(FORMULA_SRC), "entries": "shared unfitted specs (+model_matrix in thorough)"}),
         Sub("histories-contexts", drv_hist, {"D": 2 if quick else 3, "formulas": [], "ctx_formulas": ["F1", "F2", "F6"], "entries": []},
             shard_depth=2, bounds={"max_events": 2 if quick else 3, "events": "builds of F1/F2 under the default context and under a context binding "
                                    "'center'/'scale' to plain functions, reuse of every produced spec, update, pickle, subset"}),
-        Sub("hash-orders", drv_hashorder, {"formulas": HASH_FORMULAS[:5] if quick else HASH_FORMULAS}, shard_depth=3,
-            bounds={"classes": list(HASH_CLASSES), "formulas": HASH_FORMULAS[:5] if quick else HASH_FORMULAS,
+        Sub("hash-orders", drv_hashorder, {"formulas": HASH_FORMULAS[:4] if quick else HASH_FORMULAS}, shard_depth=3,
+            bounds={"classes": list(HASH_CLASSES), "formulas": HASH_FORMULAS[:4] if quick else HASH_FORMULAS,
                     "orders": "all permutations of <= 5 distinct objects, otherwise every choice of the first three"}),
-        Sub("factor-order", drv_perm, {}, shard_depth=3, bounds={"formulas": PERM_FORMULAS, "permutations": "all (<= 5! per build)"}),
+        Sub("factor-order", drv_perm, {"outputs": ["pandas"] if quick else ["pandas", "sparse"]}, shard_depth=3, bounds={"formulas": PERM_FORMULAS, "permutations": "all (<= 5! per build)"}),
         Sub("process-histories", drv_proc_hist, {"D": 2 if quick else 3, "alone": proc_baseline()}, shard_depth=2,
             bounds={"events": [list(e) for e in PROC_EVENTS], "history_length": "2" if quick else "2..3", "each history in its own interpreter": True}),
         Sub("hash-seeds", drv_seeds, {"seeds": seeds, "baseline": run_probe(0)}, shard_depth=1, bounds={"PYTHONHASHSEED": seeds, "baseline": 0}),
